@@ -1,2 +1,6 @@
+pub mod compat;
+pub mod eng;
+pub mod peer;
+pub mod script;
 pub mod util;
 pub mod wire;
